@@ -63,18 +63,26 @@ func Balances(w *world.World) map[string]*big.Int {
 	out := map[string]*big.Int{}
 	for _, s := range w.Shards {
 		for _, a := range s.Accts {
-			if IsSystemAccount(a.Addr) {
-				continue
-			}
+			sys := IsSystemAccount(a.Addr)
 			for k, v := range a.Storage {
 				if !strings.HasPrefix(k, TokPrefix) {
 					continue
+				}
+				if sys && len(v) == 2 {
+					continue // a pause flag, not a holding
 				}
 				t, err := DecodeToken(v)
 				if err != nil || t.Value == nil {
 					continue
 				}
-				out[BalKey(a.Addr, k[len(TokPrefix):])] = new(big.Int).Set(t.Value)
+				bk := BalKey(a.Addr, k[len(TokPrefix):])
+				if sys && out[bk] != nil {
+					// the system account exists on every shard under one address: its own holdings
+					// (tokens somebody sent to 0xff..ff) are summed
+					out[bk] = new(big.Int).Add(out[bk], t.Value)
+					continue
+				}
+				out[bk] = new(big.Int).Set(t.Value)
 			}
 		}
 	}
